@@ -99,8 +99,13 @@ class Hexital:
         return valid_indicators
 
     def _clean_candles(self) -> List[Candle]:
-        """Copies of the default candles with their raw values, free of readings and conversion"""
-        candles = deepcopy(self._candles[DEFAULT_CANDLES].candles)
+        """Copies of the default candles with their raw values, free of readings and conversion.
+        Candles inserted by gap filling are left out, they are not part of the data"""
+        candles = [
+            candle
+            for candle in deepcopy(self._candles[DEFAULT_CANDLES].candles)
+            if not candle._filler
+        ]
         for candle in candles:
             candle.recover_clean_values()
             candle.clean_values = {}
